@@ -56,6 +56,7 @@ profile('setup-server', PP.gen_setup_server)
 
 profile('reconnect', XR.gen_reconnect)
 profile('reconnect-lease', XR.gen_reconnect_lease)
+profile('reconnect-sweep', XR.gen_reconnect, sweep='reconnect', max_points=400)
 
 profile('hostile', PH.gen_hostile)
 profile('buggify', PH.gen_buggify)
@@ -119,7 +120,7 @@ CHECKS = {
     'C15': {'profiles': [('keepalive', 8000, 300000)], 'oracles': [PP.oracle_c15], 'level': 'exploration'},
     'C16': {'profiles': [('setup-client', 8000, 300000), ('setup-server', 4000, 150000)],
             'oracles': [PP.oracle_c16], 'level': 'exploration'},
-    'C17': {'profiles': [('reconnect', 6000, 200000)], 'oracles': [XR.oracle_c17], 'level': 'exploration'},
+    'C17': {'profiles': [('reconnect', 6000, 200000), ('reconnect-sweep', 16, 600)], 'oracles': [XR.oracle_c17], 'level': 'exploration'},
     'C12': {'profiles': [('hostile', 12000, 400000), ('buggify', 3000, 100000)],
             'oracles': {'hostile': [PH.oracle_c12_hostile], 'buggify': [PH.oracle_c12_buggify]}, 'level': 'exploration'},
     'C19': {'profiles': [('routing', 10000, 300000)], 'oracles': [XRT.oracle_c19], 'level': 'exploration'},
@@ -206,6 +207,8 @@ def expand(prop, profile_name, base_seed, index, extra, run):
                         ia['cancel'] = {'at_iter': pt['at_iter']}
                     else:
                         ia.setdefault('sub', {})['cancel_at_iter'] = pt['at_iter']
+        elif pt.get('kind') == 'reconnect':
+            p['events'][0]['at_iter'] = pt['at_iter']
         else:
             p.setdefault('faults', []).append(pt)
         yield p
@@ -261,11 +264,13 @@ _EXPL = ('seeded search over schedules, delivery timings, read chunkings, write 
          'exactly replayable simulated execution of the real client and server; a clean batch is evidence, not proof')
 MANIFEST_TEXT = {
     'C01': {'text': 'exploration: ' + _EXPL + '. Oracle: tagged payloads, delivered == emitted per interaction and direction, '
-                    'exactly once, no cross-talk; errored/cancelled interactions deliver a prefix.',
+                    'exactly once, no cross-talk; errored/cancelled interactions deliver a prefix. Also: delivery across an orderly '
+                    'close, and across reconnects (a request is only delivered on the connection it was issued on; responses correlate).',
             'note': 'reference content function and recording application layer are trusted; reliable ordered transport assumed'},
     'C03': {'text': 'exploration (narrow claim): wire invariant on every fragment of every simulated run (size limit, types, '
                     'follows/complete flags, metadata before data, single frame when it fits) plus peer reassembly vs queued '
-                    'source. Lengths are sampled with a bias to fragment boundaries, not enumerated.',
+                    'source. Lengths are sampled with a bias to fragment boundaries, plus a deterministic length-window grid; '
+                    'across reconnects the client reassembles only what one of its servers queued.',
             'note': 'independent reference decoder on the wire; FrameFragmentCache.append tapped at class level'},
     'C04': {'text': 'exploration: the same byte stream fed through the real StreamReader + TransportTCP + FrameParser under '
                     'seeded read chunkings and buffer sizes must decode to the same frames as the one-shot parse and as the '
@@ -280,10 +285,12 @@ MANIFEST_TEXT = {
                     'received so far), application grants transmitted with exactly their value, nothing withheld at quiescence.',
             'note': 'library sources: StreamFromGenerator, StreamFromAsyncGenerator (observable-backed ones under C20)'},
     'C08': {'text': 'exploration: ' + _EXPL + '. Oracle: per-role stream state machine judged at enqueue time against the '
-                    'endpoint\'s own receptions.',
+                    'endpoint\'s own receptions, plus reception-independent wire rules (SETUP first, a stream starts with its request '
+                    'frame, COMPLETE only on the last fragment, after a reconnect only frames of streams opened on that connection).',
             'note': 'literal reading of the statement: own ERROR, own requester CANCEL, both directions completed terminate emission'},
-    'C10': {'text': 'exploration: ' + _EXPL + ' over scenario plans in which every interaction terminates; oracle: stream table '
-                    'and reassembly cache of both endpoints empty at quiescence; reduced id space makes ids be reused.',
+    'C10': {'text': 'exploration: ' + _EXPL + '; oracle at drained quiescence: every stream still registered is a leak if all interactions '
+                    'finished, or - when some never finish - if the frames that endpoint itself queued and received show that stream '
+                    'terminated; reassembly cache empty; reduced id space makes ids be reused and the re-user must be served.',
             'note': 'private observations _stream_control._streams and _frame_fragment_cache._frames_by_stream_id (as the suite)'},
     'C13': {'text': 'exploration: ' + _EXPL + ' with the id space reduced to 2^k-1 (7..63) or the cursor placed just below 2^31 so '
                     'allocation wraps while ids are live. Oracle: reference allocator over must-live / maybe-live sets.',
@@ -334,7 +341,10 @@ MANIFEST_TEXT.update({
     'C17': {'text': 'exploration: real client whose transport provider hands out fresh simulated links to fresh real servers; 1-4 consecutive '
                     'connection endings by server EOF, reset, keepalive timeout (silent server) or reconnect() while healthy, requested from '
                     'on_close, on_keepalive_timeout or the script. Oracle: old transport closed, pending failed, one new transport per request, '
-                    'fresh SETUP first, ids from 1, keepalives resume, probe served, on_close once per ended connection.',
+                    'fresh SETUP first, ids from 1, keepalives resume, probes (client- and server-initiated) served with the right payload, '
+                    'on_close once per ended connection. Variants: servers that fragment with links cut at a byte offset inside a fragmented '
+                    'frame, transports whose connect() suspends, leases; plus fault-point enumeration of the reconnect moment: a base scenario '
+                    're-run with reconnect() requested at every loop iteration in turn (stride-subsampled above a cap).',
             'note': 'reconnect requests are spaced so that each yields exactly one new transport'},
     'C19': {'text': 'exploration (narrow claim): PRNG route tables on the library\'s RoutingRequestHandler with recording coroutines, requests of '
                     'all five types with known / other-type / unknown / empty / missing routes, route entry at any position of the composite '
